@@ -281,6 +281,14 @@ Section Obj.
     {| o_val := v; o_key := keyf v; o_results_map := None; o_context := None; o_result_meta := None;
        o_result := None; o_derived := post_init v; o_has_ctx_attrs := true |}.
 
+  (* a post_init that also (re)assigns parameter fields: rw is what it makes of them.  Which values the key describes
+     depends on where _task_post_init computes it. *)
+  Definition construct_rw (km : key_mode) (rw : value -> value) (v : value) : tobj :=
+    let v' := rw v in
+    {| o_val := v'; o_key := match km with KeyAfterPostInit => keyf v' | _ => keyf v end;
+       o_results_map := None; o_context := None; o_result_meta := None;
+       o_result := None; o_derived := post_init v'; o_has_ctx_attrs := true |}.
+
   (* the pickled state: fields, _lt, _is_task, cache_key, _results_map=None *)
   Record pstate := { ps_val : value; ps_key : str }.
   Definition getstate (o : tobj) : pstate := {| ps_val := o_val o; ps_key := o_key o |}.
